@@ -321,6 +321,14 @@ type ctx struct {
 	afterSizes []int
 }
 
+func (c *ctx) docData() map[string]any {
+	m := map[string]any{}
+	for _, d := range c.docs {
+		m[d.id] = d.data
+	}
+	return m
+}
+
 type engineCfg struct {
 	name   string
 	n      int  // corpus size
@@ -426,6 +434,15 @@ type pending struct {
 	m     map[string]*pend
 }
 
+// bump counts one more counterexample of a class already recorded (and says whether it was).
+func (p *pending) bump(class string) bool {
+	if e, ok := p.m[class]; ok {
+		e.count++
+		return true
+	}
+	return false
+}
+
 func (p *pending) add(class, detail string, replay map[string]any) {
 	if p.m == nil {
 		p.m = map[string]*pend{}
@@ -485,7 +502,9 @@ func compare(exp, got *rendered, sizeZero bool, mode string, add func(what, deta
 func newCtx(r *mc.Run, n int, full bool) *ctx {
 	c := &ctx{r: r, docs: corpusAll[:n], qs: queries(full), ss: sorts(full)}
 	for i := 0; i <= n+1; i++ {
-		c.froms = append(c.froms, i)
+		if i <= n || full { // From = n+1 adds nothing over From = n except on the full family
+			c.froms = append(c.froms, i)
+		}
 		c.sizes = append(c.sizes, i)
 	}
 	c.sizes = append(c.sizes, 11) // size+from > 10 switches the collector's store
@@ -521,7 +540,7 @@ func Run(r *mc.Run) {
 		}
 		cfgNames = append(cfgNames, fmt.Sprintf("%s: %d documents, %d assignments, %s", cfg.name, cfg.n, pow(cfg.n), fam))
 	}
-	r.Rule(fmt.Sprintf("E2: every assignment of a corpus (ids; keyword k with duplicates/absent; numeric n with duplicates/absent; date d; multi-valued keyword t) to %d shards, empty and skewed shards included (member engines and corpus sizes: %v) × alias shapes {flat, alias(alias(s0,s1),s2), alias(alias(s0),alias(s1,s2)), two-member alias when s2 is empty, alias(alias(s0)) when s0 holds everything} × %d queries × %d score-independent total sorts × every From∈[0,%d] × Size∈[0,%d]∪{11} page × SearchAfter and SearchBefore from every hit of the full listing (keys = the alias's own DecodedSort values, sizes %v), every request with Fields=* and 4–7 facets (terms with size ≥ buckets, prefix-filtered terms, overlapping/open/empty numeric ranges, date ranges, two equally-bounded ranges under different names); oracle = the same request on one in-memory index of the same engine holding the whole corpus: Total, ordered ids, stored fields, facet buckets and Total/Missing/Other; an outcome is (mode, query, Total, number of hits)",
+	r.Rule(fmt.Sprintf("E2: every assignment of a corpus (ids; keyword k with duplicates/absent; numeric n with duplicates/absent; date d; multi-valued keyword t) to %d shards, empty and skewed shards included (member engines and corpus sizes: %v) × alias shapes {flat, alias(alias(s0,s1),s2), alias(alias(s0),alias(s1,s2)), two-member alias when s2 is empty, alias(alias(s0)) when s0 holds everything} × %d queries × %d score-independent total sorts × every From∈[0,%d] × Size∈[0,%d]∪{11} page (quick family: From ≤ corpus size) × SearchAfter and SearchBefore from every hit of the full listing (keys = the alias's own DecodedSort values, sizes %v), every request with Fields=* and 4–7 facets (terms with size ≥ buckets, prefix-filtered terms, overlapping/open/empty numeric ranges, date ranges, two equally-bounded ranges under different names); oracle = the same request on one in-memory index of the same engine holding the whole corpus: Total, ordered ids, stored fields, facet buckets and Total/Missing/Other; an outcome is (mode, query, Total, number of hits)",
 		nShards, cfgNames, len(c0.qs), len(c0.ss), n+1, n+1, c0.afterSizes))
 	r.Assume("only score-independent total sort orders are in the property; scores, MaxScore and Took are not compared",
 		"facet sizes cover all buckets (property text); range facets are compared as name→count sets, terms facets also in order",
@@ -615,6 +634,9 @@ func (c *ctx) assignment(cfg engineCfg, m mapping.IndexMapping, a int, ws [][]*w
 	var counts [nShards]int
 	where := map[string]int{}
 	layout := make([][]string, nShards)
+	for i := range layout {
+		layout[i] = []string{}
+	}
 	x := a
 	for _, d := range c.docs {
 		s := x % nShards
@@ -662,7 +684,8 @@ func (c *ctx) family(cfg engineCfg, shape string, al bleve.Index, layout [][]str
 		mode := modeName[sp.mode]
 		replay := func() map[string]any {
 			rp := map[string]any{"engine": cfg.name, "shards": layout, "alias": shape, "query": c.qs[sp.q].String(), "sort": c.ss[sp.s].name,
-				"from": sp.from, "size": sp.size, "facet_bundle": (sp.q + sp.s) % 2, "fields": "*"}
+				"from": sp.from, "size": sp.size, "facet_bundle": (sp.q + sp.s) % 2, "fields": "*", "documents": c.docData(),
+				"mapping": "default mapping; k and t: text fields with the keyword analyzer", "facets": "see addFacets in props/c09/c09.go (bundle = facet_bundle)"}
 			if sp.mode != modePage {
 				rp["search_"+mode] = sp.keys
 			}
@@ -703,6 +726,9 @@ func (c *ctx) family(cfg engineCfg, shape string, al bleve.Index, layout [][]str
 			}
 		}
 		compare(exp, got, sp.size == 0, mode, func(what, detail string) {
+			if pd.bump(what) {
+				return
+			}
 			pd.add(what, fmt.Sprintf("%s %s shards=%v q=%s sort=%s from=%d size=%d keys=%q: %s", cfg.name, shape, layout, c.qs[q], c.ss[s].name, sp.from, sp.size, sp.keys, detail), replay())
 		})
 		return got
